@@ -4,6 +4,7 @@
 //! against the real `RoomLockService`, judged by a lock model. Random sequences (proptest) and the
 //! exhaustive enumeration of every canonical sequence up to a bounded length.
 mod exec;
+mod exitpaths;
 mod model;
 mod mutants;
 
@@ -471,12 +472,29 @@ impl Property for C20 {
         }
     }
     fn fixed_cases(tier: Tier) -> Vec<Case> {
-        blocks(tier)
+        let mut v: Vec<Case> = exitpaths::all_cases().into_iter().map(Case::Exit).collect();
+        if std::env::var("C20_ONLY_EXIT").is_ok() {
+            return v;
+        }
+        v.extend(blocks(tier));
+        v
     }
-    fn run(case: &Case, _ctx: &RunCtx) -> Outcome {
+    fn run(case: &Case, ctx: &RunCtx) -> Outcome {
         match case {
             Case::Seq(s) => run_one(s),
             Case::Block(b) => run_block(b),
+            Case::Exit(e) => {
+                let r = exitpaths::run_exit(e, &ctx.scratch);
+                let mut o = Outcome::default();
+                o.labels = r.labels;
+                o.discard = r.discard.map(|d| format!("exit-path:{}", d));
+                o.nontrivial = e.scenario != exitpaths::Scenario::Normal && o.discard.is_none();
+                o.count("exit_path_cases", 1);
+                for (sig, detail) in r.violations {
+                    o.violation(sig, format!("real LocalPeerService, {:?}: {}", e, detail));
+                }
+                o
+            }
         }
     }
     fn rule() -> String {
